@@ -549,7 +549,10 @@ def get_covariate_baselines(model: Model):
     58  1.4   8.0
     59  1.1   6.0
     """
-    covariates = model.datainfo.typeix['covariate'].names
+    try:
+        covariates = model.datainfo.typeix['covariate'].names
+    except IndexError:
+        covariates = []
     idlab = model.datainfo.id_column.name
     df = model.dataset[covariates + [idlab]]
     df = df.set_index(idlab)
@@ -581,7 +584,10 @@ def list_time_varying_covariates(model: Model):
     []
 
     """
-    cov_labels = model.datainfo.typeix['covariate'].names
+    try:
+        cov_labels = model.datainfo.typeix['covariate'].names
+    except IndexError:
+        cov_labels = []
     if len(cov_labels) == 0:
         return []
     else:
